@@ -456,10 +456,10 @@ def check(run, pid):
                        ("sim-async", dict(A, MaxOps="5", MaxId="4", MaxRestarts="2", AnyOrder="TRUE"), True, (100, 60), 70, 0, None)]
         else:
             SEED = {"InitCommitted": "TRUE", "MaxId": "2", "Keys": K1}
-            configs = [("sync", dict(S, Keys=K1), False, None, 40, 0, 600),
-                       ("async", dict(A, Keys=K1), True, None, 40, 0, 300),
-                       ("sync-seeded", dict(S, **SEED), False, None, 40, 0, 150),
-                       ("async-seeded", dict(A, **SEED), True, None, 40, 0, 50),
+            configs = [("sync", dict(S, Keys=K1), False, None, 40, 0, 450),
+                       ("async", dict(A, Keys=K1), True, None, 40, 0, 200),
+                       ("sync-seeded", dict(S, **SEED), False, None, 40, 0, 100),
+                       ("async-seeded", dict(A, **SEED), True, None, 40, 0, 30),
                        ("sim-sync", dict(S, MaxOps="4", MaxId="3", MaxRestarts="2", AnyOrder="TRUE"), False, (8, 50), 60, 0, None)]
     gts = gen_thunks(run, configs)
     tts = two_thunks(run) if pid == "C08" else []
